@@ -13,7 +13,20 @@ check_impl is the property's own predicate on the implementation: an independent
 configured fresh object, the length laws, and the printed ciphertexts of SP 800-38A appendix F for the F.1/F.2/F.5
 lines of corpus/C05.ops.  `modert …` lines (round-trip summaries `rt-ok len=…`, which the driver predicts from the length
 laws alone) are still understood for replaying old evidence; no generator emits them any more: Threefish runs through
-`mode … THREEFISH <blockbytes> x<key>,x<tweak> …` lines like every other cipher."""
+`mode … THREEFISH <blockbytes> x<key>,x<tweak> …` lines like every other cipher.
+
+Verbs dd / ee: three decryptions / three encryptions and a decryption on ONE object of any mode (the message, the message with its
+blocks reversed, the message again), judged call by call.
+
+Repeated blocks (`repeat-*` tags): raw ciphertexts in which one block occurs at several positions (IV|B|B, IV|A|B|A, IV|IV|…, with
+nopadding and with paddings whose last block is well-formed by construction) and messages crafted with the cipher's own enc so
+that the ciphertext repeats a block (CBC: M2 = M1 ^ IV ^ E(M1 ^ IV)) or that repeat plaintext blocks - a per-block shortcut in a mode
+is invisible on random data.  check_impl decrypts ECB/CBC ciphertexts with its own left-to-right reference.
+
+`ctrseq <cipher> <n> <key> <counter|-> <step> …` lines: ONE CTR object through a history of public calls (enc, dec, dec of the latest
+ciphertext, counter.setup, assignment of a new DefaultCounter, counter.reset, counter()); the driver threads Model.Mode.CTR.Obj
+through the steps (model column) and keeps only the counter block in force for Spec.Mode.ctrOf (spec column); check_impl evaluates
+SP 800-38A CTR on the counter block in force at each step with its own bookkeeping."""
 from props.common import *
 
 ID = 'C05'
@@ -23,7 +36,10 @@ RULE = ('op lines = (mode, cipher, block length, key, IV/counter, padding, enc|d
         'TDEA in its 5 calling forms, Serpent with several key lengths, Threefish-256/512/1024 with key and tweak, 2 toy ciphers x block '
         'lengths 8..128} x every residue of |M| mod block for 0..3 blocks (Threefish: 0..2 blocks, quick tier: boundary residues) x '
         'admissible paddings, counter halves at 2^k-1 / all-ones (16/32/64-byte halves for Threefish), SP 800-38A appendix F vectors, '
-        'damaged paddings, malformed lengths / keys / tweaks; distinct lines; non-trivial = the implementation returned a value')
+        'damaged paddings, malformed lengths / keys / tweaks; ciphertexts and messages that repeat a block in every position pattern '
+        '(raw dec lines, messages crafted so that the ciphertext repeats a block); histories of calls on ONE CTR object (enc/dec, '
+        'counter.setup / assignment / reset / call in between, short-long-short messages); distinct lines; non-trivial = the '
+        'implementation returned a value')
 TRUSTED = ['Spec.Mode / Spec.ModePad are trusted as renderings of SP 800-38A (+Addendum) and PKCS#7 / X9.23 / ISO 9797-1 method 2 '
            '(Spec.ModePad is proved equal to Spec.Padding of C09 on byte strings; appendix F vectors are checked against Spec.Mode over Spec.Aes)',
            'Spec.Aes / Spec.Des / Spec.Serpent / Spec.Threefish as renderings of FIPS 197 / FIPS 46-3 + SP 800-67 / the Serpent submission / '
@@ -115,6 +131,14 @@ def reference_E(cid, n, keys):
         _REF[k] = cipher_obj(cid, n, keys).enc
     return _REF[k]
 
+def reference_D(cid, n, keys):
+    """inverse block function for the independent reference decryption"""
+    k = ('D', cid, n, tuple(keys))
+    if k not in _REF:
+        if len(_REF) > 64: _REF.clear()
+        _REF[k] = cipher_obj(cid, n, keys).dec
+    return _REF[k]
+
 def key_ok(cid, n, keys):
     """keys the cipher (toy: the toy of block length n) is defined for"""
     if cid in TOYS: return len(keys) == 1 and len(keys[0]) == n
@@ -154,11 +178,78 @@ def parse(line):
     return t[0], mode, cid, int(n), key, (None if iv == '-' else unhx(iv)), pad, verb, unhx(msg)
 
 
+# ---- `ctrseq <cipher> <blockbytes> <key> <counter or -> <step> …`: ONE CTR object through a history of public calls
+def opt(t): return None if t == '-' else unhx(t)
+def hxo(b): return '-' if b is None else hx(b)
+
+def parse_seq(line):
+    t = line.split()
+    cid, n, key, ctor = t[1], int(t[2]), [unhx(k) for k in t[3].split(',')], opt(t[4])
+    steps = []
+    for st in t[5:]:
+        f = st.split(':')
+        if f[0] in ('e', 'd') and len(f) == 2: steps.append((f[0], unhx(f[1])))
+        elif f[0] == 's' and len(f) == 3: steps.append(('s', opt(f[1]), opt(f[2])))
+        elif f[0] == 'a' and len(f) == 2: steps.append(('a', opt(f[1])))
+        elif st in ('r', 'c', 'b'): steps.append((st,))
+        else: raise RuntimeError('step ' + st)
+    if not steps: raise RuntimeError('no step')
+    return cid, n, key, ctor, steps
+
+def seq_line(cid, n, keys, ctor, steps):
+    toks = []
+    for st in steps:
+        if st[0] in ('e', 'd'): toks.append('%s:%s' % (st[0], hx(st[1])))
+        elif st[0] == 's': toks.append('s:%s:%s' % (hxo(st[1]), hxo(st[2])))
+        elif st[0] == 'a': toks.append('a:%s' % hxo(st[1]))
+        else: toks.append(st[0])
+    return 'ctrseq %s %d %s %s %s' % (cid, n, ','.join(hx(k) for k in keys), hxo(ctor), ' '.join(toks))
+
+def run_seq(line):
+    import io, contextlib
+    from crysp import mode as MO
+    cid, n, key, ctor, steps = parse_seq(line)
+    if cid not in TOYS and not token_ok(cid, n, key): raise RuntimeError('block length token does not match the cipher')
+    cipher = None
+    def build():
+        nonlocal cipher
+        cipher = cipher_obj(cid, n, key)
+        return MO.CTR(cipher) if ctor is None else MO.CTR(cipher, ctor)
+    box = []
+    if guarded(lambda: box.append(build()) or 'ok') == 'ERR': return 'ERR'
+    obj, last, out = box[0], [b''], []
+    for st in steps:
+        def go():
+            k = st[0]
+            if k == 'e':
+                C = obj.enc(st[1]); last[0] = C; return hx(C)
+            if k == 'd': return hx(obj.dec(st[1]))
+            if k == 'b': return hx(obj.dec(last[0]))
+            if k == 's': obj.counter.setup(st[1], st[2]); return '.'
+            if k == 'a':
+                obj.counter = MO.DefaultCounter(obj.len) if st[1] is None else MO.DefaultCounter(obj.len, st[1]); return '.'
+            if k == 'r': obj.counter.reset(); return '.'
+            if k == 'c':
+                with contextlib.redirect_stdout(io.StringIO()):      # `__call__` prints a hint when there is no count yet
+                    r = obj.counter()
+                return 'None' if r is None else hx(r)
+        out.append(guarded(go))
+    return ';'.join(out)
+
+
+def rev_blocks(n, X, keep):
+    """X with its whole blocks in reverse order (keep: the first block - the IV - stays in front; a partial tail stays behind)"""
+    head = X[:n] if keep else b''
+    body = X[len(head):]
+    q = len(body) // n
+    return head + b''.join(reversed([body[i * n:(i + 1) * n] for i in range(q)])) + body[q * n:]
+
 def run_impl(line):
+    if line.startswith('ctrseq '): return run_seq(line)
     op, mode, cid, n, key, iv, pad, verb, msg = parse(line)
     if op == 'mode':
         if cid not in TOYS and not token_ok(cid, n, key): raise RuntimeError('block length token does not match the cipher')
-        if verb not in ('enc', 'dec', 'rt', 'enc2', 'er', 'xd'): raise RuntimeError('verb ' + verb)
+        if verb not in ('enc', 'dec', 'rt', 'enc2', 'er', 'xd', 'dd', 'ee'): raise RuntimeError('verb ' + verb)
         mk = lambda: make_mode(mode, cipher_obj(cid, n, key), iv, pad)
         def go():
             if verb == 'enc': return hx(mk().enc(msg))
@@ -171,6 +262,25 @@ def run_impl(line):
             if verb == 'xd':                        # msg = an already 'padded' plaintext: encrypt it as it is, decrypt with the scheme
                 C = make_mode(mode, cipher_obj(cid, n, key), iv, 'nopadding').enc(msg)
                 return hx(mk().dec(C))
+        if verb in ('dd', 'ee'):
+            # ONE object of any mode used three (four) times: whatever it keeps from a call must not show in the next one.
+            #   dd: dec(C), dec(C with its blocks behind the IV reversed: same blocks, other neighbours), dec(C)
+            #   ee: C1 = enc(M), enc(M with its blocks reversed), enc(M), dec(C1)
+            box = []
+            if guarded(lambda: box.append(mk()) or 'ok') == 'ERR': return ';'.join(['ERR'] * (3 if verb == 'dd' else 4))
+            m, out, c1 = box[0], [], []
+            keep = mode in ('CBC', 'CTS_CBC')
+            if verb == 'dd':
+                for X in (msg, rev_blocks(n, msg, keep), msg): out.append(guarded(lambda: hx(m.dec(X))))
+            else:
+                for X in (msg, rev_blocks(n, msg, False), msg):
+                    def one():
+                        C = m.enc(X)
+                        if not c1: c1.append(C)
+                        return hx(C)
+                    out.append(guarded(one))
+                out.append(guarded(lambda: hx(m.dec(c1[0]))) if c1 else 'ERR')
+            return ';'.join(out)
         return guarded(go)
     if op == 'modert':
         def go():
@@ -220,6 +330,12 @@ def r_cts_cbc(E, n, iv, M):
     if d == n: return b''.join(C)
     return b''.join(C[:-2] + [C[-1], C[-2][:d]])
 
+def r_ecb_dec(D, n, C): return b''.join(D(b) for b in r_blocks(n, C))
+def r_cbc_dec(D, n, C):
+    """SP 800-38A 6.2 decryption, left to right: P_j = CIPH^-1(C_j) xor C_{j-1}; C_0 = the first block of the input"""
+    B = r_blocks(n, C)
+    return b''.join(r_xor(D(B[j]), B[j - 1]) for j in range(1, len(B)))
+
 def unpad_candidate(pad, n, P):
     """the message M with r_pad(pad, n, M) == P, or None"""
     if not P: return None
@@ -258,13 +374,88 @@ def law_len(mode, n, pad, mlen):
     if mode == 'CTS_CBC': return mlen + n
 
 
+def r_ctr_of(E, n, nonce, count, M):
+    """SP 800-38A CTR, T_j = nonce || [(count + j) mod 2^m]_m with m = 8|count| (Appendix B.1)"""
+    w = len(count); c0 = int.from_bytes(count, 'big')
+    return b''.join(r_xor(b, E(nonce + ((c0 + j) % (1 << (8 * w))).to_bytes(w, 'big'))) for j, b in enumerate(r_blocks(n, M)))
+
+def check_seq(line, res):
+    """every enc/dec step is SP 800-38A CTR with the counter block in force AT THAT STEP (the latest constructor argument,
+    setup() or assigned counter) and nothing else: not the calls before it, not their messages, not their counters.  The
+    bookkeeping here keeps (nonce, count, number of counter calls since the latest reset) and knows nothing of the object."""
+    cid, n, key, ctor, steps = parse_seq(line)
+    bad = lambda i, why: 'ctrseq step %d (%s): %s' % (i + 1, ' '.join(line.split()[5 + i:6 + i])[:60], why)
+    if not key_ok(cid, n, key): return None
+    if ctor is None:
+        if n % 2: return None
+        nonce, count = bytes(n // 2), bytes(n // 2)
+    else:
+        if len(ctor) != n: return None if res == 'ERR' else 'ctrseq: a counter of %d bytes was accepted' % len(ctor)
+        nonce, count = ctor[:n // 2], ctor[n // 2:]
+    outs = res.split(';')
+    if len(outs) != len(steps): return 'ctrseq: %d results for %d steps' % (len(outs), len(steps))
+    E = reference_E(cid, n, key)
+    last, run = b'', None             # run: [value, bytes] of the counter object's running count (None: no reset yet on this object)
+    for i, (st, got) in enumerate(zip(steps, outs)):
+        k = st[0]
+        ok = len(nonce) + len(count) == n and len(count) > 0
+        if k in ('e', 'd', 'b'):
+            if not ok: return None          # the counter block in force is not a block of this cipher: outside the standard
+            M = last if k == 'b' else st[1]
+            exp = r_ctr_of(E, n, nonce, count, M)
+            if got != hx(exp): return bad(i, 'counter block in force %s|%s: SP 800-38A gives %s, got %s' % (nonce.hex(), count.hex(), hx(exp), got))
+            if k == 'e': last = exp
+            run = [(int.from_bytes(count, 'big') + max(1, -(-len(M) // n))) % (1 << (8 * len(count))), len(count)]
+        elif k == 's':
+            nonce = bytes(n // 2) if st[1] is None else st[1]
+            count = bytes(n // 2) if st[2] is None else st[2]
+            if got != '.': return bad(i, 'got ' + got)
+        elif k == 'a':
+            if st[1] is not None and len(st[1]) != n:
+                if got != 'ERR': return bad(i, 'a counter of %d bytes was accepted' % len(st[1]))
+                continue
+            iv = bytes(2 * (n // 2)) if st[1] is None else st[1]
+            nonce, count, run = iv[:n // 2], iv[n // 2:], None
+            if got != '.': return bad(i, 'got ' + got)
+        elif k == 'r':
+            run = [int.from_bytes(count, 'big'), len(count)]
+            if got != '.': return bad(i, 'got ' + got)
+        elif k == 'c':
+            if run is None: exp = 'None'
+            elif run[1] == 0: return None
+            else:
+                # the nonce is read when the counter is called, the running count was loaded by the latest reset
+                exp = hx(nonce + run[0].to_bytes(run[1], 'big'))
+                run[0] = (run[0] + 1) % (1 << (8 * run[1]))
+            if got != exp: return bad(i, 'next counter block is %s, got %s' % (exp, got))
+    return None
+
+
 def check_impl(line, res):
+    if line.startswith('ctrseq '): return check_seq(line, res)
     op, mode, cid, n, key, iv, pad, verb, msg = parse(line)
     bad = lambda why: '%s %s %s: %s' % (op, mode, verb, why)
     if op == 'modert':
         if not in_domain(mode, n, bytes(n), iv, pad, msg): return None
         exp = 'rt-ok len=%d' % law_len(mode, n, pad, len(msg))
         return None if res == exp else bad('got %s, expected %s' % (res, exp))
+    if verb in ('dd', 'ee'):
+        # each call is judged as if it were the only one on a new object
+        if n < 1: return None
+        parts = res.split(';')
+        t = line.split()
+        keep = mode in ('CBC', 'CTS_CBC')
+        single = lambda v, X: ' '.join(t[:7] + [v, hx(X)])
+        if verb == 'dd': calls = [('dec', msg), ('dec', rev_blocks(n, msg, keep)), ('dec', msg)]
+        else: calls = [('enc', msg), ('enc', rev_blocks(n, msg, False)), ('enc', msg)]
+        if res == 'ERR': parts = ['ERR'] * (len(calls) + (verb == 'ee'))
+        if len(parts) != len(calls) + (verb == 'ee'): return bad('malformed result')
+        for i, (v, X) in enumerate(calls):
+            r = check_impl(single(v, X), parts[i])
+            if r: return 'call %d on one object: %s' % (i + 1, r)
+        if verb == 'ee' and in_domain(mode, n, key, iv, pad, msg, cid) and parts[3] != hx(msg):
+            return bad('call 4 on one object: dec(first ciphertext) = %s' % parts[3])
+        return None
     kat = KAT.get(line)
     if kat is not None and res != kat: return bad('differs from the ciphertext printed in SP 800-38A appendix F')
     if verb == 'dec' and mode in ('CTS_ECB', 'CTS_CBC'):
@@ -277,6 +468,19 @@ def check_impl(line, res):
         if len(M) != len(msg) - (n if mode == 'CTS_CBC' else 0): return bad('plaintext length %d' % len(M))
         back = make_mode(mode, cipher_obj(cid, n, key), msg[:n] if mode == 'CTS_CBC' else None, pad).enc(M)
         return None if back == msg else bad('enc(dec(C)) = %s' % hx(back))
+    if verb == 'dec' and mode in ('ECB', 'CBC'):
+        # a raw ciphertext of whole blocks (CBC: behind an IV block): the plaintext blocks are CIPH^-1(C_j) [xor C_{j-1}] block by
+        # block, whatever blocks the ciphertext repeats; then the padding is taken off (PKCS#7 / X9.23: or refused)
+        first = n if mode == 'CBC' else 0
+        if pad not in PADS or not key_ok(cid, n, key) or len(msg) % n or len(msg) < first + n: return None
+        if (mode == 'CBC') != (iv is not None and len(iv) == n): return None
+        D = reference_D(cid, n, key)
+        P = r_cbc_dec(D, n, msg) if mode == 'CBC' else r_ecb_dec(D, n, msg)
+        if pad == 'nopadding': return None if res == hx(P) else bad('plaintext blocks are %s, got %s' % (hx(P), res))
+        M = unpad_candidate(pad, n, P)
+        if M is not None: return None if res == hx(M) else bad('the ciphertext decrypts to the padded string of %s, got %s' % (hx(M), res))
+        if pad in ('pkcs7', 'X923'): return None if res == 'ERR' else bad('the ciphertext does not decrypt to a padded string, got %s' % res)
+        return None
     if verb == 'xd':
         # dec(enc_nopadding(P)) = unpad(P): the message whose padded string is P, an exception when there is none
         if mode not in ('ECB', 'CBC') or pad == 'nopadding' or not in_domain(mode, n, key, iv, 'nopadding', msg, cid): return None
@@ -618,6 +822,247 @@ def threefish_cases(tier, rng, keys=None):
                 yield rline(mode, 'THREEFISH', n, ks, iv, 'nopadding', 'er', rb(rng, L)), 'real-malformed/out-of-domain-length'
 
 
+# ---------------------------------------------------------------------------------------------
+# repeated blocks: one block value at several positions of a ciphertext / of a message.  A per-block shortcut in a mode (a
+# memo keyed by the block, a "same as the previous block" test) is invisible on random data - two equal n-byte blocks never
+# meet - and on ordinary messages; the ciphertext of a CHAINED mode repeats a block only for a message crafted with the key
+# (C_2 = C_1 needs M_2 = M_1 ^ IV ^ E(M_1 ^ IV)).  Patterns: equal letters = equal blocks, I = the IV block.
+REP_PATTERNS = ['AA', 'ABA', 'AAA', 'AAB', 'ABB', 'I', 'ABAB', 'II', 'AI', 'IA', 'AIA', 'IAI', 'AAAA', 'ABCA']
+
+def sym_values(rng, n, pat, iv):
+    vals = {'I': iv}
+    for ch in pat:
+        while ch not in vals:
+            v = rb(rng, n)
+            if v not in vals.values(): vals[ch] = v
+    return vals
+
+def valid_last(pad, n, rng, q):
+    """a last plaintext block carrying q bytes of well-formed padding"""
+    head = rb(rng, n - q)
+    if pad == 'pkcs7': return head + bytes([q]) * q
+    if pad == 'X923': return head + bytes(q - 1) + bytes([q])
+    return head + b'\x80' + bytes(q - 1)
+
+def craft_cbc(E, D, n, iv, pat, rng):
+    """message blocks whose CBC ciphertext blocks follow the pattern: C_i = C_j needs M_i = M_j ^ C_{j-1} ^ C_{i-1} (for 'AA' this
+    is M_2 = M_1 ^ IV ^ E(M_1 ^ IV)), built with the cipher's own enc; C_i = IV needs CIPH^-1(IV)"""
+    M, C, pos = [], [iv], {}
+    for i, ch in enumerate(pat):
+        prev = C[-1]
+        if ch == 'I': m, c = r_xor(D(iv), prev), iv
+        elif ch in pos: j = pos[ch]; m, c = r_xor(r_xor(M[j], C[j]), prev), C[j + 1]
+        else: m = rb(rng, n); c = E(r_xor(m, prev)); pos[ch] = i
+        M.append(m); C.append(c)
+    return M
+
+def pick_patterns(thin, j, chained):
+    pats = [p for p in REP_PATTERNS if chained or 'I' not in p]
+    if thin: pats = [p for i, p in enumerate(pats) if p == 'AA' or (i + j) % thin == 0]
+    return pats
+
+def repeat_cases(tier, rng, mk, cid, n, ks, ktag, thin=0, search=True, off=0, modes=MODES):
+    """mk = mline / rline.  (i) `dec` of RAW ciphertexts with repeated blocks (the IV block among them), without padding and with
+    paddings whose last plaintext block is well-formed by construction (a fresh last block behind the pattern; the last block of
+    the pattern itself: its predecessor is solved for, or - when the two are the same block - the block is searched for);
+    (ii) `er` of messages crafted so that the CIPHERTEXT follows the pattern, and of messages that repeat PLAINTEXT blocks"""
+    obj = cipher_obj(cid, n, ks)
+    E, D = obj.enc, obj.dec
+    j, found = off, {}
+    for mode in modes:
+        chained = mode in ('CBC', 'CTS_CBC')
+        for pad in admissible(mode):
+            j += 1
+            for pat in pick_patterns(thin, j, chained):
+                iv = rb(rng, n) if mode in ('CBC', 'CTS_CBC', 'CTR') else None
+                vals = sym_values(rng, n, pat, iv)
+                blocks = [vals[ch] for ch in pat]
+                head = [iv] if chained else []
+                tag = '%s/%s/%s/%s' % ('toy' if cid in TOYS else ktag, mode, pad, pat)
+                join = lambda L: b''.join(L)
+                # ---- (i) raw ciphertexts
+                if pad == 'nopadding':
+                    yield mk(mode, cid, n, ks, iv, pad, 'dec', join(head + blocks)), 'repeat-dec/' + tag
+                    if not thin: yield mk(mode, cid, n, ks, iv, pad, 'dd', join(head + blocks)), 'one-object-dec/' + tag
+                    if mode in ('CTS_ECB', 'CTS_CBC', 'CTR'):
+                        yield mk(mode, cid, n, ks, iv, pad, 'dec', join(head + blocks) + rb(rng, rng.randrange(1, n))), 'repeat-dec/' + tag + '+partial'
+                else:
+                    V = valid_last(pad, n, rng, rng.choice([1, 2, n]))
+                    L = E(r_xor(V, blocks[-1])) if chained else E(V)
+                    yield mk(mode, cid, n, ks, iv, pad, 'dec', join(head + blocks + [L])), 'repeat-dec/' + tag + '+padblock'
+                    if not thin: yield mk(mode, cid, n, ks, iv, pad, 'dd', join(head + blocks + [L])), 'one-object-dec/' + tag + '+padblock'
+                    V = valid_last(pad, n, rng, rng.choice([1, 1, 3, n]))
+                    lastc, prevc = pat[-1], (pat[-2] if len(pat) > 1 else 'I')
+                    ok = True
+                    if not chained: vals[lastc] = E(V)
+                    elif lastc != prevc: vals[prevc] = r_xor(D(vals[lastc]), V)
+                    else:
+                        # P_last = D(X) ^ X: look for a block X that makes its last byte a one-byte padding
+                        # (one search per cipher object and padding byte; the block found is used for every such pattern)
+                        want = 0x80 if pad == 'bitpadding' else 1
+                        if want not in found:
+                            found[want] = None
+                            for _ in range(6000 if search else 0):
+                                v = rb(rng, n)
+                                if D(v)[-1] ^ v[-1] == want: found[want] = v; break
+                        ok = found[want] is not None and found[want] not in vals.values()
+                        if ok: vals[lastc] = found[want]
+                    if ok:
+                        iv2 = vals['I']
+                        yield (mk(mode, cid, n, ks, iv2, pad, 'dec', join(([iv2] if chained else []) + [vals[ch] for ch in pat])),
+                               'repeat-dec/' + tag + '/last-is-padded')
+                # ---- (ii) crafted messages
+                tails = [b''] if pad == 'nopadding' and mode in ('ECB', 'CBC') else [b'', rb(rng, rng.randrange(1, n))]
+                if mode in ('ECB', 'CBC') and pad != 'nopadding' and not thin: tails.append(rb(rng, n - 1))
+                if chained: Mc = craft_cbc(E, D, n, iv, pat, rng)
+                elif mode == 'CTR': Mc = [r_xor(vals[ch], E(r_counter(n, iv, i))) for i, ch in enumerate(pat)]
+                else: Mc = None
+                for t in tails:
+                    if Mc is not None:
+                        yield mk(mode, cid, n, ks, iv, pad, 'er', join(Mc) + t), 'repeat-ciphertext/' + tag
+                    yield mk(mode, cid, n, ks, iv, pad, 'er', join(blocks) + t), 'repeat-plaintext/' + tag
+                    if not thin or pat == 'AA': yield mk(mode, cid, n, ks, iv, pad, 'ee', join(Mc or blocks) + t), 'one-object-enc/' + tag
+
+def one_object_cases(tier, rng, sizes):
+    """ordinary (random, distinct) blocks: three or four calls on one object of every mode; ciphertexts made with the reference"""
+    for n in sizes:
+        for cid in ('rot', 'aff'):
+            key = rb(rng, n)
+            for mode in MODES:
+                for pad in admissible(mode):
+                    for L in (n, 2 * n, 3 * n, 3 * n + 2, 4 * n - 1):
+                        iv = rb(rng, n) if mode in ('CBC', 'CTS_CBC', 'CTR') else None
+                        msg = rb(rng, L)
+                        yield mline(mode, cid, n, key, iv, pad, 'ee', msg), 'one-object-enc/random/%s/%s' % (mode, pad)
+                        if in_domain(mode, n, key, iv, pad, msg):
+                            yield mline(mode, cid, n, key, iv, pad, 'dd', ref_encrypt(mode, cid, n, key, iv, pad, msg)), 'one-object-dec/random/%s/%s' % (mode, pad)
+                        yield mline(mode, cid, n, key, iv, pad, 'dd', rb(rng, L + (n if iv is not None and mode != 'CTR' else 0))), 'one-object-dec/raw/%s/%s' % (mode, pad)
+
+def repeat_toy_cases(tier, rng, sizes):
+    for n in sizes:
+        for cid in ('rot', 'aff'):
+            yield from repeat_cases(tier, rng, lambda mode, cid, n, ks, iv, pad, verb, msg: mline(mode, cid, n, ks[0], iv, pad, verb, msg),
+                                    cid, n, [rb(rng, n)], 'toy')
+
+def repeat_real_cases(tier, rng):
+    quick = tier == 'quick'
+    keys = [('AES', 16, [rb(rng, 16)], 'AES-128'), ('DES', 8, [rb(rng, 8)], 'DES'), ('THREEFISH', 32, [rb(rng, 32), rb(rng, 16)], 'Threefish-256')]
+    if not quick:
+        keys += [('AES', 16, [rb(rng, 32)], 'AES-256'), ('TDEA', 8, [rb(rng, 24)], 'TDEA-string24'), ('SERPENT', 16, [rb(rng, 16)], 'Serpent-128'),
+                 ('THREEFISH', 64, [rb(rng, 64), rb(rng, 16)], 'Threefish-512')]
+    for i, (cid, n, ks, ktag) in enumerate(keys):
+        slow = quick and cid == 'AES'            # the Lean AES model costs ~25 ms per line: the chained modes, fewer patterns
+        yield from repeat_cases(tier, rng, rline, cid, n, ks, ktag, thin=((5 if slow else 3) if quick else (0 if i < 3 else 2)), search=cid == 'THREEFISH' or not quick,
+                                off=i, modes=('CBC', 'CTS_CBC') if slow else MODES)
+
+# ---------------------------------------------------------------------------------------------
+# one CTR object through a history of calls (`ctrseq`): whatever an object keeps from one call to the next (key stream
+# blocks, counter blocks, a block index) shows only when the SAME object is used again, after its counter was changed
+# through one of the public routes, or for a longer / shorter message.
+def seq_routes(n, rng):
+    """(tag, steps) - every public way of giving a used object another counter block, and the calls that must not change it"""
+    h = n // 2; w = n - h
+    iv2 = rb(rng, n)
+    R = [('setup', [('s', iv2[:h], iv2[h:])]),
+         ('setup-count-only', [('s', None, rb(rng, h))]),
+         ('setup-nonce-only', [('s', rb(rng, h), None)]),
+         ('setup-defaults', [('s', None, None)]),
+         ('assign-iv', [('a', rb(rng, n))]),
+         ('assign-default', [('a', None)]),
+         ('setup-then-reset', [('s', rb(rng, h), rb(rng, w)), ('r',)]),
+         ('assign-then-call', [('a', rb(rng, n)), ('c',)]),
+         ('reset-only', [('r',)]),
+         ('call-only', [('c',)]),
+         ('reset-call-call', [('r',), ('c',), ('c',)]),
+         ('setup-all-ones', [('s', rb(rng, h), b'\xff' * w)]),
+         ('setup-twice', [('s', rb(rng, h), rb(rng, w)), ('s', rb(rng, h), rb(rng, w))])]
+    if n >= 6:       # other splits of the block into nonce and running part (the counter wraps inside the running part)
+        R.append(('setup-split-4', [('s', rb(rng, n - 4), rb(rng, 4))]))
+        R.append(('setup-split-1-wrap', [('s', rb(rng, n - 1), b'\xfe')]))
+        R.append(('setup-split-long-count', [('s', rb(rng, 1), rb(rng, n - 1))]))
+    return R
+
+def seq_cases_for(tier, rng, cid, n, ks, ktag, budget=None):
+    """budget: None = everything, k = about one line in k (real ciphers in the quick tier)"""
+    h = n // 2; w = n - h
+    keep = lambda: budget is None or rng.randrange(budget) == 0
+    lens = [0, 1, n - 1, n, n + 1, 2 * n, 3 * n - 3, 3 * n]
+    msg = lambda L: rb(rng, L)
+    iv1 = rb(rng, n)
+    ctors = [None, iv1] if n % 2 == 0 else [iv1]
+    T = lambda t: 'ctrseq/%s/%s' % ('toy' if cid in TOYS else ktag, t)
+    # A. use, change the counter, use again (same message, then decrypt its ciphertext, then another string)
+    for ctor in ctors:
+        for rtag, route in seq_routes(n, rng):
+            for L in (rng.sample(lens[1:], 3) if budget is None else [rng.choice(lens[3:])]):
+                if not keep(): continue
+                M = msg(L)
+                yield seq_line(cid, n, ks, ctor, [('e', M)] + route + [('e', M), ('b',), ('d', msg(rng.choice(lens)))]), T('route/' + rtag)
+                yield seq_line(cid, n, ks, ctor, [('d', M)] + route + [('d', M), ('e', msg(rng.choice(lens)))]), T('route-after-dec/' + rtag)
+    # B. short, long, short on one object (a prefix of the key stream must serve every length), with a change in the middle
+    for ctor in ctors:
+        for Ls in ([1, 3 * n, n + 1], [2 * n, n - 1, 3 * n], [0, n, 0, 2 * n + 1], [n, n, n]):
+            if not keep(): continue
+            ms = [msg(L) for L in Ls]
+            yield seq_line(cid, n, ks, ctor, [('e', m) for m in ms] + [('b',)]), T('short-long-short')
+            yield seq_line(cid, n, ks, ctor, [('e', ms[0]), ('e', ms[1]), ('s', rb(rng, h), rb(rng, w)), ('e', ms[1]), ('e', ms[0]), ('b',)]), T('short-long-change-long-short')
+            yield seq_line(cid, n, ks, ctor, [x for m in ms for x in (('e', m), ('b',))]), T('enc-dec-pairs')
+    # C. partial changes and changing back: same nonce / other count, other nonce / same count, back to the first block
+    for L in ([n + 1, 3 * n] if budget is None else [2 * n - 1]):
+        if not keep(): continue
+        M = msg(L); a, b, a2, b2 = rb(rng, h), rb(rng, w), rb(rng, h), rb(rng, w)
+        yield seq_line(cid, n, ks, a + b, [('e', M), ('s', a, b2), ('e', M), ('s', a2, b2), ('e', M), ('s', a, b), ('e', M), ('b',)]), T('partial-change-and-back')
+        yield seq_line(cid, n, ks, None if n % 2 == 0 else a + b, [('e', M), ('a', a + b), ('e', M), ('a', None), ('e', M), ('a', a + b), ('b',), ('c',)]), T('assign-and-back')
+        # neighbouring counters: the key stream of count+1 is the one of count shifted by a block
+        c0 = rng.randrange(1 << (8 * w))
+        cb = lambda v: (v % (1 << (8 * w))).to_bytes(w, 'big')
+        yield seq_line(cid, n, ks, a + cb(c0), [('e', M), ('s', a, cb(c0 + 1)), ('e', M), ('s', a, cb(c0 - 1)), ('e', M)]), T('neighbouring-counters')
+        full = (1 << (8 * w)) - 1
+        yield seq_line(cid, n, ks, a + cb(full - 1), [('e', msg(3 * n)), ('c',), ('s', a, cb(full)), ('e', msg(2 * n + 1)), ('b',), ('c',), ('c',)]), T('wrap-around')
+    # D. seeded random histories
+    for _ in range((40 if tier == 'quick' else 400) if budget is None else 4):
+        ctor = rng.choice(ctors)
+        steps = []
+        for _ in range(rng.randrange(3, 9)):
+            k = rng.choice('eeeddbbssaarc')
+            if k in 'ed': steps.append((k, msg(rng.choice(lens + [rng.randrange(0, 4 * n)]))))
+            elif k == 's': steps.append(('s', rng.choice([None, rb(rng, h)]), rng.choice([None, rb(rng, w), rb(rng, w)])))
+            elif k == 'a': steps.append(('a', rng.choice([None, rb(rng, n)])))
+            else: steps.append((k,))
+        yield seq_line(cid, n, ks, ctor, steps), T('random-history')
+
+def seq_malformed_cases(tier, rng):
+    """counter parts that do not make a block (the cipher refuses the counter block, the object recovers with the next setup),
+    counters of the wrong length handed to the constructor / assigned (refused, the object keeps the counter it had), odd
+    block lengths (the default counter is one byte short), calls before any reset"""
+    for cid, n in (('rot', 8), ('aff', 16), ('rot', 7), ('aff', 3)):
+        key = [rb(rng, n)]; h = n // 2; w = n - h
+        M = rb(rng, n + 2)
+        for bn, bc in ((rb(rng, h), rb(rng, w + 1)), (rb(rng, h + 1), rb(rng, h + 1)), (b'', rb(rng, w)), (rb(rng, n), rb(rng, 1)), (rb(rng, h), rb(rng, w - 1))):
+            yield seq_line(cid, n, key, rb(rng, n), [('e', M), ('s', bn, bc), ('e', M), ('c',), ('s', rb(rng, h), rb(rng, w)), ('e', M), ('b',)]), 'ctrseq/malformed/setup-lengths'
+        for L in (0, n - 1, n + 1, 2 * n):
+            yield seq_line(cid, n, key, rb(rng, n), [('e', M), ('a', rb(rng, L)), ('e', M), ('c',)]), 'ctrseq/malformed/assign-length'
+            yield seq_line(cid, n, key, rb(rng, L), [('e', M), ('b',)]), 'ctrseq/malformed/ctor-length'
+        yield seq_line(cid, n, key, None, [('c',), ('e', M), ('c',), ('r',), ('c',), ('a', None), ('c',), ('e', M)]), 'ctrseq/malformed/default-counter'
+        yield seq_line(cid, n, key, None, [('s', rb(rng, h), rb(rng, w)), ('e', M), ('b',), ('s', None, None), ('e', M)]), 'ctrseq/malformed/default-counter'
+
+def ctrseq_cases(tier, rng):
+    quick = tier == 'quick'
+    for n in ([8, 16, 32] if quick else [8, 16, 32, 64, 128, 6, 24]):
+        for cid in ('rot', 'aff'):
+            yield from seq_cases_for(tier, rng, cid, n, [rb(rng, n)], 'toy')
+    yield from seq_malformed_cases(tier, rng)
+
+def ctrseq_real_cases(tier, rng):
+    quick = tier == 'quick'
+    keys = [('AES', 16, [rb(rng, 16)], 'AES-128', 8), ('DES', 8, [rb(rng, 8)], 'DES', 3), ('THREEFISH', 32, [rb(rng, 32), rb(rng, 16)], 'Threefish-256', 3)]
+    if not quick:
+        keys += [('AES', 16, [rb(rng, 24)], 'AES-192', 2), ('TDEA', 8, [rb(rng, 8), rb(rng, 8)], 'TDEA-2args', 2), ('SERPENT', 16, [rb(rng, 32)], 'Serpent-256', 2),
+                 ('THREEFISH', 128, [rb(rng, 128), rb(rng, 16)], 'Threefish-1024', 2)]
+    for cid, n, ks, ktag, b in keys:
+        yield from seq_cases_for(tier, rng, cid, n, ks, ktag, budget=b if quick else max(1, b - 1))
+
+
 REAL = []         # ciphers without a Lean model (summary lines `modert`): none any more
 
 def real_cases(tier, rng):
@@ -699,6 +1144,10 @@ def cases(tier, rng):
             yield from real_mode_cases('quick', rng)
             yield from real_dec_cases('thorough', rng, real_keys('quick', rng))
             yield from threefish_cases('quick', rng)
+            yield from repeat_toy_cases('quick', rng, [n])
+            yield from repeat_real_cases('quick', rng)
+            yield from seq_cases_for('quick', rng, rng.choice(['rot', 'aff']), n, [rb(rng, n)], 'toy')
+            yield from ctrseq_real_cases('quick', rng)
         return
     sizes = [8, 16, 32, 64, 128]
     yield from toy_cases(tier, rng, sizes)
@@ -707,9 +1156,12 @@ def cases(tier, rng):
     yield from malformed_cases(tier, rng)
     yield from twice_cases(tier, rng)
     yield from xd_toy_cases(tier, rng)
+    yield from repeat_toy_cases(tier, rng, [8, 16, 32] if tier == 'quick' else sizes)
+    yield from ctrseq_cases(tier, rng)
+    yield from one_object_cases(tier, rng, [8, 16] if tier == 'quick' else [8, 16, 32, 64, 128])
     yield from random_cases(tier, rng, 4000 if tier == 'quick' else 60000)
     real = (list(real_mode_cases(tier, rng)) + list(real_dec_cases(tier, rng)) + list(real_malformed_cases(tier, rng)) + list(real_cases(tier, rng))
-            + list(threefish_cases(tier, rng)))
+            + list(threefish_cases(tier, rng)) + list(repeat_real_cases(tier, rng)) + list(ctrseq_real_cases(tier, rng)))
     rng.shuffle(real)              # lines of very different cost: mix them so that the worker chunks are balanced
     yield from real
     if tier == 'thorough':
@@ -721,6 +1173,15 @@ def cases(tier, rng):
 
 def shrink(line):
     t = line.split()
+    if t[0] == 'ctrseq':
+        head, steps = t[:5], t[5:]
+        for i in range(len(steps)):                       # drop a step
+            if len(steps) > 1: yield ' '.join(head + steps[:i] + steps[i + 1:])
+        for i, st in enumerate(steps):                    # shorten a message
+            if st[:3] in ('e:x', 'd:x') and len(st) > 5:
+                yield ' '.join(head + steps[:i] + [st[:-2]] + steps[i + 1:])
+                yield ' '.join(head + steps[:i] + [st[:3] + st[5:]] + steps[i + 1:])
+        return
     msg = t[-1]
     if len(msg) > 3:
         yield ' '.join(t[:-1] + ['x' + msg[3:]])
@@ -736,7 +1197,10 @@ LEVEL_TEXT = ('Lean 4 theorems about Model.Mode (the hand-written mirror of crys
               'counter halves of 4..64 bytes), admissible padding and message length. The models are tied to the current source by a '
               'correspondence stream that drives the real mode objects over the real cipher objects (and over toy ciphers of block length 8..128 '
               'bytes), compared with Model.Mode over the Lean cipher models and Spec.Mode over the Spec ciphers, and evaluates an independent '
-              'SP 800-38A reference and the appendix F vectors on the real code.')
+              'SP 800-38A reference and the appendix F vectors on the real code. One CTR object used repeatedly is modelled as a step machine '
+              '(Model.Mode.CTR.Obj): its enc/dec results are proved to depend on the counter block in force and the message only '
+              '(ctr_history_independent, ctr_after_setup, ctr_after_assign, ctr_obj_spec), and the stream drives the real object and the '
+              'machine through the same histories.')
 LEVEL_NOTE = ('Trusted: Lean kernel; axioms within {propext, Classical.choice, Quot.sound}; Spec.Mode/Spec.ModePad as renderings of SP 800-38A, its '
               'addendum and the padding methods (Spec.ModePad proved equal to Spec.Padding on byte strings; appendix F.1.1/F.2.1/F.5.1 evaluated '
               'through Spec.Mode over Spec.Aes in the kernel); Spec.Aes/Des/Serpent/Threefish; extract.py/runcheck.py/props/C05.py. '
